@@ -147,6 +147,14 @@ def h : Handler := fun op j =>
       | "scalar_arr" => pure (toString (allcloseScalarArr (← getF j "a") (← getFList j "b") rtol (← getF j "atol")))
       | "list" => pure (toString (allcloseList (← getFList j "a") (← getFList j "b") rtol (← getF j "atol")))
       | "list_scalar" => pure (toString (allcloseListScalar))
+      | "bc" => do
+          let arg (k : String) : Except String (Arg Float) := match j.getObjVal? k with
+            | .ok (.arr xs) => do pure (.arr (← xs.toList.mapM asBits))
+            | .ok v => do pure (.scalar (← asBits v))
+            | _ => .error s!"!bad-arg:{k}"
+          match allcloseB (← arg "a") (← arg "b") rtol (← arg "atol") with
+          | .ok r => pure (toString r)
+          | .error e => pure e.pyName
       | "scalar" => pure (toString (allclose (← getF j "a") (← getF j "b") rtol (← getF j "atol")))
       | _ => .error "!bad-arg:shape"
   | "cls_base" => do
